@@ -16,6 +16,8 @@ impl Token {
 }
 impl Drop for Token {
     fn drop(&mut self) {
+        #[cfg(feature = "verif_hooks")]
+        crate::verif::emit("TokenReturn", 0, 0);
         let _ = self.0.try_send(());
     }
 }
@@ -44,6 +46,8 @@ impl TokenSet {
     #[allow(clippy::missing_panics_doc)]
     pub async fn async_wait_token(&mut self) -> Token {
         self.1.async_recv().await.unwrap();
+        #[cfg(feature = "verif_hooks")]
+        crate::verif::emit("TokenTake", 0, 0);
         Token(self.0.clone())
     }
 
@@ -51,6 +55,8 @@ impl TokenSet {
     #[allow(clippy::missing_panics_doc)]
     pub fn wait_token(&self) -> Token {
         self.1.recv().unwrap();
+        #[cfg(feature = "verif_hooks")]
+        crate::verif::emit("TokenTake", 0, 0);
         Token(self.0.clone())
     }
 
